@@ -766,7 +766,52 @@ fn sink_main(env: &mut VEnv, args: Vec<Field>) -> BuiltinFuture<'_> {
     })
 }
 
+/// `sinkk K [CAP]`: reads until it has K bytes, records the first K and returns
+/// without draining the rest of its input.
+fn sinkk_main(env: &mut VEnv, args: Vec<Field>) -> BuiltinFuture<'_> {
+    Box::pin(async move {
+        let k = args.first().and_then(|f| f.value.parse::<usize>().ok()).unwrap_or(0);
+        let cap = cap_arg(&args[args.len().min(1)..]);
+        let mut buffer = vec![0u8; cap];
+        let mut all = vec![];
+        while all.len() < k {
+            match env.system.read(Fd::STDIN, &mut buffer).await {
+                Ok(0) => break,
+                Ok(n) => all.extend_from_slice(&buffer[..n]),
+                Err(_) => break,
+            }
+        }
+        all.truncate(k);
+        SUNK.with(|s| s.borrow_mut().push(all));
+        ExitStatus::SUCCESS.into()
+    })
+}
+
+/// `emitchunks HEX...`: writes every argument (bytes in hexadecimal) with its own
+/// `write_all` and sleeps one virtual millisecond in between, so that a reader
+/// can run while only a part of the data is there.
+fn emitchunks_main(env: &mut VEnv, args: Vec<Field>) -> BuiltinFuture<'_> {
+    Box::pin(async move {
+        use yash_env::system::concurrency::Sleep as _;
+        for a in &args {
+            let mut data = vec![];
+            for pair in a.value.as_bytes().chunks(2) {
+                if let Ok(b) = u8::from_str_radix(std::str::from_utf8(pair).unwrap_or("0"), 16) {
+                    data.push(b);
+                }
+            }
+            if env.system.write_all(Fd::STDOUT, &data).await.is_err() {
+                return ExitStatus::FAILURE.into();
+            }
+            env.system.sleep(Duration::from_millis(1)).await;
+        }
+        ExitStatus::SUCCESS.into()
+    })
+}
+
 fn install(env: &mut VEnv) {
+    env.builtins.insert("sinkk", Builtin::new(Type::Mandatory, sinkk_main));
+    env.builtins.insert("emitchunks", Builtin::new(Type::Mandatory, emitchunks_main));
     env.builtins.insert("emit", Builtin::new(Type::Mandatory, emit_main));
     env.builtins.insert("put", Builtin::new(Type::Mandatory, put_main));
     env.builtins.insert("emitraw", Builtin::new(Type::Mandatory, emitraw_main));
@@ -862,6 +907,7 @@ fn heredoc_cmd(cmd: &str, body: &[u8]) -> String {
 #[derive(Clone, Debug)]
 enum Route {
     Pipe(usize, usize), // stages, cap  (the chunk size is the producer's)
+    Head(usize, usize, usize), // stages, k, cap: the last command quits after k bytes
     Var,
     Here(usize),
 }
@@ -919,6 +965,14 @@ fn render(e: &DExp, route: &Route) -> String {
                 s.push_str(&format!(" | sink {cap}"));
                 s
             }
+        }
+        Route::Head(stages, k, cap) => {
+            let mut s = e.cmd();
+            for _ in 1..*stages {
+                s.push_str(&format!(" | relay {cap}"));
+            }
+            s.push_str(&format!(" | sinkk {k} {cap}"));
+            s
         }
         Route::Var => format!("x=$({}\n)\nargs \"$x\"", e.cmd()),
         Route::Here(cap) => heredoc_cmd(&format!("sink {cap}"), &e.eval()),
@@ -992,7 +1046,7 @@ fn stream_c_case_with(
     // what the observer received
     let got: Option<Vec<u32>> = match route {
         Route::Pipe(0, _) => Some(o.stdout.bytes().map(|b| b as u32).collect()),
-        Route::Pipe(..) | Route::Here(_) => {
+        Route::Pipe(..) | Route::Here(_) | Route::Head(..) => {
             if sunk.len() == 1 { Some(sunk[0].iter().map(|b| *b as u32).collect()) } else { None }
         }
         Route::Var => {
@@ -1010,6 +1064,7 @@ fn stream_c_case_with(
             let chunk = 0; // the producer's chunking is part of the expression
             format!("(RPipe {} {} {})", coq::nat(*s), coq::nat(chunk), coq::nat(*c))
         }
+        Route::Head(s, k, c) => format!("(RHead {} {} {})", coq::nat(*s), coq::nat(*k), coq::nat(*c)),
         Route::Var => "RVar".to_string(),
         Route::Here(c) => format!("(RHere {})", coq::nat(*c)),
     };
@@ -1051,6 +1106,7 @@ fn stream_c_case_with(
         Route::Pipe(1, _) => "C.route:pipe-1",
         Route::Pipe(2, _) => "C.route:pipe-2",
         Route::Pipe(..) => "C.route:pipe-3+",
+        Route::Head(..) => "C.route:early-exiting consumer",
         Route::Var => "C.route:command-substitution",
         Route::Here(_) => "C.route:here-document",
     });
@@ -1138,6 +1194,118 @@ fn stream_e_case(w: &mut CasesWriter, bytes: &[u8]) {
     w.count(&format!("E.trailing-newlines:{}", tr.min(3)));
     let key = if !valid && tr > 0 { Some(format!("E:{hex}")) } else { None };
     w.push(&term, &json, &[], key);
+}
+
+// ---------------------------------------------------------------------------
+// Stream G: the `read` built-in on a pipe whose writer splits multi-byte characters
+
+/// `chunks`: the pieces the writer writes (one write_all each, a sleep in between).
+fn stream_g_case(w: &mut CasesWriter, chunks: &[Vec<u8>], pol_kind: usize, pol_seed: u64, early_tick: bool) {
+    let hex: Vec<String> =
+        chunks.iter().filter(|c| !c.is_empty()).map(|c| c.iter().map(|b| format!("{b:02x}")).collect()).collect();
+    let script = format!("emitchunks {} | {{ read -r a; read -r b; args \"$a\" \"$b\"; }}", hex.join(" "));
+    let all: Vec<u8> = chunks.concat();
+    let (policy, pol_name) = policy_of(pol_kind, pol_seed);
+    WATCHDOG.with(|wd| wd.tick(&script));
+    sched::EARLY_TICK.store(early_tick, std::sync::atomic::Ordering::SeqCst);
+    let (o, info) = run_shell_sched(
+        RunOpts { argv: vec!["-c".into(), script.clone()], ..Default::default() },
+        |env, _| install(env),
+        policy,
+        400_000,
+    );
+    sched::EARLY_TICK.store(true, std::sync::atomic::Ordering::SeqCst);
+    let a: Vec<&TraceItem> = o.trace.iter().filter(|t| t.kind == "args").collect();
+    let leftover = info.children.iter().filter(|(_, alive, unreaped)| *alive || *unreaped).count();
+    let (va, vb) = if a.len() == 1 && a[0].args.len() == 2 && !o.deadlock && !o.timeout && leftover == 0 {
+        (a[0].args[0].clone(), a[0].args[1].clone())
+    } else {
+        ("\u{1}unobserved".to_string(), String::new())
+    };
+    let term = format!("(CRead {} {} {})", coq::bytes(&all), coq::s(&va), coq::s(&vb));
+    let short = |x: &str| -> String {
+        let n = x.chars().count();
+        if n > 40 {
+            format!("{}...[{} chars]...{}", x.chars().take(12).collect::<String>(), n, x.chars().skip(n - 12).collect::<String>())
+        } else {
+            x.to_string()
+        }
+    };
+    let json = format!(
+        "{{\"stream\":\"G\",\"script\":{},\"policy\":{},\"early_tick\":{},\"a\":{},\"b\":{},\"status\":{},\"deadlock\":{},\"timeout\":{},\"children\":{},\"stderr\":{}}}",
+        json_str(&if script.len() > 400 { format!("{}...{}", &script[..200], &script[script.len() - 150..]) } else { script.clone() }),
+        json_str(&pol_name),
+        early_tick,
+        json_str(&short(&va)),
+        json_str(&short(&vb)),
+        o.status,
+        o.deadlock,
+        o.timeout,
+        json_str(&format!("{:?}", info.children)),
+        json_str(&o.stderr.chars().take(200).collect::<String>())
+    );
+    // does a chunk boundary fall inside a character?
+    let mut split = false;
+    let mut at = 0;
+    for c in &chunks[..chunks.len().saturating_sub(1)] {
+        at += c.len();
+        if at < all.len() && (all[at] & 0xC0) == 0x80 {
+            split = true;
+        }
+    }
+    let edge = all.len() > PIPE_SIZE && (all[PIPE_SIZE] & 0xC0) == 0x80;
+    w.count(if split { "G.chunking:splits a character" } else { "G.chunking:at character boundaries" });
+    if edge {
+        w.count("G.ring:a character straddles byte 1024");
+    }
+    w.count(&format!("G.policy:{}{}", pol_name.split(':').next().unwrap(), if early_tick { "" } else { "+late-tick" }));
+    let key = if split { Some(format!("G:{}:{:?}", hex.join(" ").len(), digest_bytes(hex.join(" ").as_bytes()).1)) } else { None };
+    w.push(&term, &json, &[], key);
+}
+
+/// Two or three lines of text with multi-byte characters and a chunking of its bytes.
+fn gen_read_chunks(r: &mut Rng) -> Vec<Vec<u8>> {
+    let alphabet = ["a", "b", "z", "0", "\u{e9}", "\u{20ac}", "\u{20ac}", "\u{8a9e}", "\u{1f600}", "\u{1f600}", "\u{10348}"];
+    let mut text = String::new();
+    let lines = 2 + r.below(2);
+    for li in 0..lines {
+        // sometimes a line that fills the pipe up to its edge
+        let n = if r.chance(1, 6) { 1000 + r.below(40) } else { 1 + r.below(8) };
+        if n > 100 {
+            let pad = n - r.below(6);
+            for _ in 0..pad {
+                text.push('x');
+            }
+        }
+        for _ in 0..(if n > 100 { 3 } else { n }) {
+            text.push_str(r.pick(&alphabet));
+        }
+        if li + 1 < lines || r.chance(3, 4) {
+            text.push('\n');
+        }
+    }
+    let bytes = text.into_bytes();
+    // cut points: prefer the inside of characters
+    let inside: Vec<usize> = (1..bytes.len()).filter(|i| (bytes[*i] & 0xC0) == 0x80).collect();
+    let mut cuts: Vec<usize> = vec![];
+    let ncuts = 1 + r.below(5);
+    for _ in 0..ncuts {
+        if !inside.is_empty() && r.chance(4, 5) {
+            cuts.push(*r.pick(&inside));
+        } else if bytes.len() > 1 {
+            cuts.push(1 + r.below(bytes.len() - 1));
+        }
+    }
+    cuts.sort();
+    cuts.dedup();
+    let mut out = vec![];
+    let mut from = 0;
+    for c in cuts {
+        out.push(bytes[from..c].to_vec());
+        from = c;
+    }
+    out.push(bytes[from..].to_vec());
+    out
 }
 
 fn gen_raw(r: &mut Rng) -> Vec<u8> {
@@ -1342,6 +1510,9 @@ fn main() {
             (DExp::Gen(PIPE_SIZE + 1, 5, 2, 0), Route::Var),
             (DExp::Subst(Box::new(DExp::Gen(PIPE_SIZE + 1, 6, 1, 0))), Route::Var),
             (DExp::Gen(3, 7, 0, 1), Route::Pipe(3, 1)),
+            (DExp::Gen(5000, 8, 0, 0), Route::Head(1, 0, 1024)),
+            (DExp::Gen(3000, 9, 1, 0), Route::Head(2, 1, 1024)),
+            (DExp::Gen(2 * PIPE_SIZE + 1, 10, 0, 0), Route::Head(1, PIPE_SIZE + 1, 1024)),
         ];
         for (e, route) in &configs {
             let mut prefix: Vec<usize> = vec![];
@@ -1401,6 +1572,34 @@ fn main() {
         PRELUDE.with(|p| p.set(0));
     }
 
+    // consumers that quit after k bytes (and producers larger than the pipes): the
+    // delivered prefix is exact and the writers end (EPIPE) -- nothing left, no deadlock
+    {
+        let mut i = 0u64;
+        let sizes: Vec<usize> =
+            if args.thorough() { vec![PIPE_SIZE + 1, 3000, 5000, 2 * PIPE_SIZE + PIPE_BUF + 1] } else { vec![5000] };
+        for pre in [0usize, 1, 3, 5] {
+            PRELUDE.with(|p| p.set(pre));
+            for stages in 1..=4usize {
+                for n in &sizes {
+                    for k in [0usize, 1, PIPE_BUF, PIPE_SIZE + 7] {
+                        if !args.thorough() && (i % 3 != 0) {
+                            i += 1;
+                            continue;
+                        }
+                        let e = DExp::Gen(*n, 41 + i % 5, 1, if i % 4 == 3 { 700 } else { 0 });
+                        let pols: &[usize] = if args.thorough() { &[0, 1, 4] } else { &[4] };
+                        for pk in pols {
+                            stream_c_case(&mut w, &e, &Route::Head(stages, k, *r_cap(i)), *pk, i * 17 + 3);
+                        }
+                        i += 1;
+                    }
+                }
+            }
+        }
+        PRELUDE.with(|p| p.set(0));
+    }
+
     let nc = args.scale(120, 1500);
     for k in 0..nc {
         let mut r = rng.fork(3_000_000 + k as u64);
@@ -1412,7 +1611,8 @@ fn main() {
             1..=2 => Route::Pipe(1, *r.pick(&[1024usize, 1, 64, PIPE_BUF, PIPE_SIZE + 1, 5000])),
             3 => Route::Pipe(2, *r.pick(&[1024usize, 100, PIPE_BUF + 1])),
             4 => Route::Pipe(3 + r.below(2), 1024),
-            5..=7 => Route::Var,
+            5 => Route::Head(1 + r.below(3), *r.pick(&[0usize, 1, 10, PIPE_BUF, PIPE_SIZE, 1500]), *r.pick(&[1024usize, 64, PIPE_BUF])),
+            6..=7 => Route::Var,
             _ => {
                 if e.valid_here_body() && !matches!(e, DExp::Lit(_)) {
                     Route::Here(*r.pick(&[1024usize, 1, 511, 4096]))
@@ -1460,6 +1660,49 @@ fn main() {
         stream_e_case(&mut w, &raw);
     }
 
+    // ---- the read built-in behind a writer that splits characters ----------------
+    PRELUDE.with(|p| p.set(0));
+    {
+        let euro = "\u{20ac}".as_bytes().to_vec(); // E2 82 AC
+        let grin = "\u{1f600}".as_bytes().to_vec(); // F0 9F 98 80
+        let mut corpus: Vec<Vec<Vec<u8>>> = vec![];
+        // every split of "a€\nb😀\n" into two pieces, and the byte-by-byte one
+        let t: Vec<u8> = [b"a".to_vec(), euro.clone(), b"\nb".to_vec(), grin.clone(), b"\n".to_vec()].concat();
+        for c in 1..t.len() {
+            corpus.push(vec![t[..c].to_vec(), t[c..].to_vec()]);
+        }
+        corpus.push(t.iter().map(|b| vec![*b]).collect());
+        // three pieces inside one four-byte character
+        corpus.push(vec![b"\xf0".to_vec(), b"\x9f\x98".to_vec(), b"\x80\nq\n".to_vec()]);
+        corpus.push(vec![b"\xf0\x9f".to_vec(), b"\x98".to_vec(), b"\x80z\n\xe2".to_vec(), b"\x82\xac\n".to_vec()]);
+        // a character that straddles the edge of the 1024-byte ring
+        for (pad, ch) in [(1023usize, &euro), (1022, &euro), (1021, &grin), (1022, &grin), (1023, &grin)] {
+            let mut line: Vec<u8> = vec![b'x'; pad];
+            line.extend_from_slice(ch);
+            line.extend_from_slice(b"\nsecond");
+            line.extend_from_slice(ch);
+            line.push(b'\n');
+            corpus.push(vec![line.clone()]);
+            corpus.push(vec![line[..PIPE_SIZE].to_vec(), line[PIPE_SIZE..].to_vec()]);
+            corpus.push(vec![line[..pad + 1].to_vec(), line[pad + 1..].to_vec()]);
+        }
+        for (i, chunks) in corpus.iter().enumerate() {
+            let pols: &[usize] = if args.thorough() { &[0, 1, 2, 3, 4] } else { &[0, 4] };
+            for pk in pols {
+                stream_g_case(&mut w, chunks, *pk, i as u64, false);
+            }
+            stream_g_case(&mut w, chunks, 4, 1000 + i as u64, true);
+        }
+    }
+    let ng = args.scale(60, 1500);
+    for k in 0..ng {
+        let mut r = rng.fork(9_000_000 + k as u64);
+        let chunks = gen_read_chunks(&mut r);
+        let pk = *r.pick(&[0usize, 1, 2, 3, 4, 4]);
+        let early = r.chance(1, 4);
+        stream_g_case(&mut w, &chunks, pk, r.next_u64() % 1_000_000, early);
+    }
+
     PRELUDE.with(|p| p.set(0));
     let nd = args.scale(100, 2000);
     for k in 0..nd {
@@ -1472,6 +1715,7 @@ fn main() {
         "A: system calls on one pipe (non-trivial = more than PIPE_BUF bytes written and a partial write or EAGAIN seen); \
          B: write_all/read tasks under a chosen schedule (non-trivial = payload > PIPE_SIZE and at least two yields); \
          C: scripts under a schedule-controlling executor (non-trivial = payload > PIPE_SIZE and at least one scheduling point with a choice); \
-         D: command substitution of explicit texts (non-trivial = trailing and embedded newlines); distinct = by input",
+         D: command substitution of explicit texts (non-trivial = trailing and embedded newlines); \
+         G: the read built-in behind a chunked writer (non-trivial = a chunk boundary inside a multi-byte character); distinct = by input",
     );
 }
